@@ -11,9 +11,9 @@ import (
 
 // Rebind differential: "binding the same SSRC again starts from fresh state". For every short history H of
 // traffic on stream 1, run A = H, Unbind(1), Bind(1), probe; run B = the ticks of H only (same virtual
-// times), Bind(1), probe. Everything the probe makes the interceptor emit about stream 1 must be the same.
+// times), Bind(1), probe. H may contain earlier unbind/bind cycles of the stream. Everything the probe makes the interceptor emit about stream 1 must be the same.
 
-var rebindOps = []string{"traffic", "traffic-with-gap", "tick", "rtcp-in"}
+var rebindOps = []string{"traffic", "traffic-with-gap", "tick", "rtcp-in", "unbind+bind"}
 
 type rebindRun struct {
 	kind string
@@ -42,6 +42,16 @@ func (r *rebindRun) op(o int) {
 		}
 	case 2:
 		vsched.Advance(hk.ReportInterval)
+	case 4:
+		// an earlier unbind/bind cycle of the same SSRC (the reference run never had the stream: nothing happens there)
+		if r.cp.local && s.Locals[1] != nil {
+			s.I.UnbindLocalStream(s.Locals[1].Info)
+			s.BindLocal(1, true)
+		}
+		if r.cp.remote && s.Remotes[1] != nil {
+			s.I.UnbindRemoteStream(s.Remotes[1].Info)
+			s.BindRemote(1, true)
+		}
 	case 3:
 		if r.cp.rtcpR {
 			raw := hk.RawSR(hk.StreamInfo(false, 1, true).SSRC, 0xe000000000000000, 99)
